@@ -1046,7 +1046,7 @@ func genPkgCase(rng *rand.Rand, id int, profile, scratch string, tier string) *P
 	switch profile {
 	case "stamps":
 		// C07: the package mtime is always fixed; scripts, changelog and per-entry mtimes provide other legitimate stamps
-		c.Pmt = pick(rng, []int{1600000000, 1234567890, 0})
+		c.Pmt = pick(rng, []int{1600000000, 1234567890, 0, 2100000000}) // (2100000000: a date the build clock has not reached)
 		c.PmtZero = c.Pmt == 0
 		c.Entries = payloadEntries(rng, nodes, c.NoGlob, 1+rng.Intn(7))
 		nodes = append(nodes, addScripts(rng, c, subset(rng, scriptSlots))...)
